@@ -8,11 +8,16 @@ contracts.load_all()
 from pyvc.contract import verify, REGISTRY
 verbose = "-v" in sys.argv
 pats = [a for a in sys.argv[1:] if not a.startswith("-")]
+vsel = [a.split("=", 1)[1] for a in sys.argv[1:] if a.startswith("--variant=")]
+tier = ([a.split("=", 1)[1] for a in sys.argv[1:] if a.startswith("--tier=")] or ["quick"])[0]
 for fq, spec in REGISTRY.items():
     if pats and not any(p in fq for p in pats):
         continue
     t = time.time()
-    r = verify(spec)
+    if vsel:
+        _v0 = spec.variants
+        spec.variants = lambda tier_, _v0=_v0: [v for v in _v0(tier_) if any(x in str(v) for x in vsel)]
+    r = verify(spec, tier)
     c = Counter(o.status for o in r.obligations)
     print("%-70s paths=%d obligations=%d %s %.1fs (solver %.1fs)" % (fq, r.paths, len(r.obligations), dict(c), time.time() - t, r.solver_s))
     shown = 0
